@@ -508,11 +508,22 @@ def t_array(I, args, kw, node):
 
 import array as _array
 
+def t_islice(I, args, kw, node):
+    """itertools.islice(iterable, stop) / (iterable, start, stop) on a sequence of known length"""
+    xs = I.iter_concrete(args[0], node)
+    rest = [a for a in args[1:]]
+    if any(L.is_z3(a) for a in rest):
+        raise SymError("islice with symbolic bounds")
+    import itertools
+    return list(itertools.islice(xs, *rest))
+
+
 def t_frozenset(I, args, kw, node):
     return frozenset(t_set(I, args, kw, node))
 
 
-TYPES = {frozenset: t_frozenset, _array.array: t_array, int: t_int, float: t_float, bool: t_bool, bytes: t_bytes, list: t_list, tuple: t_tuple,
+import itertools as _itertools
+TYPES = {_itertools.islice: t_islice, frozenset: t_frozenset, _array.array: t_array, int: t_int, float: t_float, bool: t_bool, bytes: t_bytes, list: t_list, tuple: t_tuple,
          set: t_set, dict: t_dict, str: t_str, range: b_range, enumerate: b_enumerate, zip: b_zip,
          reversed: b_reversed, object: t_object}
 
